@@ -292,6 +292,7 @@ def _c02_kani():
         H('parser', 'cfg', 'c02_k_key_max_fits_row', kind='complete', covers='all codes 0..=KEY_MAX as layer-row column', functions=['parser/src/layers.rs KEYS_IN_ROW (row width relied on by parse_layers, create_defsrc_layer, Layout::resolve_coord)']),
         H('keyberon', 'layout', 'c02_b_history', kind='bounded', bound='<= 10 pushes into the 8-slot history', functions=[L + 'History::{push_front,tick_hist,iter_hevents}']),
         H('keyberon', 'layout', 'c02_k_history_saturates', kind='complete'),
+        H('keyberon', 'layout', 'c02_k_arraydeque_wrapping_contract', kind='complete', covers='the ArrayDeque<_, N, Wrapping> contract that the Verus units oneshot / waiting / seqs ASSUME (push_back incl. eviction of the front when full, pop_front, get, clear, len, is_empty; NOT remove), on the real crate, capacity 4, every fill level, symbolic elements', functions=['arraydeque 0.5.1 ArrayDeque<_, 4, Wrapping>::{new, push_back, pop_front, get, clear, len, is_empty}']),
     ]
     seen = set(h['name'] for h in out)
     for pid in ('C03', 'C05', 'C06', 'C09', 'C10', 'C11', 'C17'):
@@ -505,4 +506,5 @@ THOROUGH_BOUNDS = {
                   ('const WQ_N: usize = 4;', 'const WQ_N: usize = 5;')],
 }
 THOROUGH_NOTE = 'one-shot tables <= 4 coordinates, event queue <= 5 events'
+
 
